@@ -16,7 +16,9 @@ package db
 //
 // Forwards to the channel cache are observed by a recording decorator of the ChannelCache interface that the
 // changeCache calls under its lock (AddToCache / AddPrincipal / AddUnusedSequence) and delegates to the real
-// channel cache; visibility is read back from the real "*" channel cache.
+// channel cache; visibility is read back from the real "*" channel cache.  At every forward the decorator also
+// snapshots the lock-free view (skipped list, high cache sequence) of that instant - the states inside a critical
+// section that a concurrent _changes request can observe (MidNoHiddenGap).
 
 import (
 	"context"
@@ -57,16 +59,30 @@ type vC08Recorder struct {
 	ChannelCache
 	mu   sync.Mutex
 	base uint64
+	c    *changeCache // the cache that calls us (under its lock); set before the first arrival
+	w    int
 	fw   []vObj
 }
 
+// rec runs at the instant of a forward, INSIDE the changeCache critical section.  Besides the forward itself it records
+// what a reader that does not take changeCache.lock (a _changes request computing lowSequence from
+// getOldestSkippedSequence) can see at this instant: skipped membership of the window and the high cache sequence.
 func (r *vC08Recorder) rec(change *LogEntry, kind string) {
 	end := 0
 	if change.EndSequence > 0 {
 		end = int(int64(change.EndSequence - r.base))
 	}
+	sk := []int{}
+	if r.c != nil {
+		for i := 0; i <= r.w+3; i++ {
+			if s := r.base + uint64(i); s > 0 && r.c.skippedSeqs.Contains(s) { // skiplist has its own mutex
+				sk = append(sk, i)
+			}
+		}
+	}
+	hcs := int(int64(r.ChannelCache.GetHighCacheSequence() - r.base))
 	r.mu.Lock()
-	r.fw = append(r.fw, vObj{"seq": int(int64(change.Sequence - r.base)), "end": end, "kind": kind, "late": change.Skipped})
+	r.fw = append(r.fw, vObj{"seq": int(int64(change.Sequence - r.base)), "end": end, "kind": kind, "late": change.Skipped, "sk": sk, "hcs": hcs})
 	r.mu.Unlock()
 }
 func (r *vC08Recorder) AddToCache(ctx context.Context, change *LogEntry) []channels.ID {
@@ -246,7 +262,7 @@ func vC08NewRig(t *testing.T, shared *DatabaseContext, sharedCtx context.Context
 		g.coll = GetSingleDatabaseCollection(t, db.DatabaseContext).GetCollectionID()
 		g.c.lock.Lock()
 		g.base = g.c.initialSequence
-		g.rec = &vC08Recorder{ChannelCache: g.c.channelCache, base: g.base}
+		g.rec = &vC08Recorder{ChannelCache: g.c.channelCache, base: g.base, c: g.c, w: b.W}
 		g.c.channelCache = g.rec
 		g.c.lock.Unlock()
 		g.close = func() { db.Close(ctx) }
@@ -259,8 +275,8 @@ func vC08NewRig(t *testing.T, shared *DatabaseContext, sharedCtx context.Context
 			t.Fatalf("VERIF-FATAL channel cache: %v", err)
 		}
 		g.base = base
-		g.rec = &vC08Recorder{ChannelCache: chc, base: base}
 		g.c = &changeCache{}
+		g.rec = &vC08Recorder{ChannelCache: chc, base: base, c: g.c, w: b.W}
 		notify := func(ctx context.Context, chs channels.Set) { shared.mutationListener.Notify(ctx, chs) }
 		if err := g.c.Init(ctx, shared, g.rec, notify, &opts, shared.MetadataKeys); err != nil {
 			t.Fatalf("VERIF-FATAL changeCache.Init: %v", err)
